@@ -80,8 +80,15 @@ package proof
 // C12: signatures are taken from, and canonical vote bytes rebuilt for, exactly the precommits FOR THE BLOCK
 // (BlockIDFlagCommit): absent and nil votes are skipped, they are neither relayed nor allowed to fail the proof;
 // each relayed signature is the vote's own (r = first 32 bytes, s = the rest) with its own encoded timestamp.
+// The relayed signatures are ordered by the address recovered from them, ascending (the bridge walks them in that order
+// and rejects a proof whose signers do not ascend): the i-th relayed signature is the one recorded under the i-th
+// address of the sorted address list.
 //@ func GetSignaturesAndPrefix
 //@ may_panic
 //@ assert before encodedTimestamp: vote.BlockIDFlag == cmttypes.BlockIDFlagCommit
+//@ assert at lastreturn: len(signatures) == len(addrs) && (forall i :: 0 <= i && i < len(signatures) ==> signatures[i] == (has(mapAddrs, addrs[i]) ? mapAddrs[addrs[i]] : zero(TMSignature)))
+//@ assert at lastreturn: (forall i Int, j Int :: 0 <= i && i < j && j < len(addrs) ==> !(addrs[j] < addrs[i]))
+//@ loop 1: invariant len(signatures) == len(addrs) && (forall j :: 0 <= j && j < #i ==> signatures[j] == (has(mapAddrs, addrs[j]) ? mapAddrs[addrs[j]] : zero(TMSignature)))
+//@ loop 1: invariant forall i Int, j Int :: 0 <= i && i < j && j < len(addrs) ==> !(addrs[j] < addrs[i])
 //@ loop 0: invariant true
 //@ loop 1: invariant true
